@@ -33,4 +33,5 @@ wait
 for k in $(seq 0 $((N-1))); do git -C /repo worktree remove --force $ROOT/r$k; done
 git -C /repo worktree prune
 sort $ROOT/log > $ROOT/log.sorted
+cp $ROOT/log.sorted /tmp/psweep_$(date +%H%M%S).log   # the next sweep clears $ROOT
 echo "done: $(wc -l < $ROOT/log.sorted) changes"
